@@ -69,9 +69,21 @@ def write_stream(fd, spec):
 
 
 def main():
-    pkg, binary, args = sys.argv[1], sys.argv[2], sys.argv[3:]
-    scen = json.load(open(os.environ["PUPPET_SCENARIO"]))
-    tests = scen.get("bins", {}).get(f"{pkg}::{binary}", {}).get("tests", {})
+    if sys.argv[1] == "--script":
+        # setup-script mode: puppet.py --script <name>; behaves like a single-attempt test called
+        # <name> taken from scenario["scripts"]; may write KEY=VALUE lines to $NEXTEST_ENV
+        pkg, binary, args = "@script", sys.argv[2], ["--exact", sys.argv[2]]
+        scen = json.load(open(os.environ["PUPPET_SCENARIO"]))
+        tests = {k: {"attempts": [v]} for k, v in scen.get("scripts", {}).items()}
+        envf = os.environ.get("NEXTEST_ENV")
+        for line in scen.get("scripts", {}).get(sys.argv[2], {}).get("env_lines", []):
+            if envf:
+                with open(envf, "a") as f:
+                    f.write(line + "\n")
+    else:
+        pkg, binary, args = sys.argv[1], sys.argv[2], sys.argv[3:]
+        scen = json.load(open(os.environ["PUPPET_SCENARIO"]))
+        tests = scen.get("bins", {}).get(f"{pkg}::{binary}", {}).get("tests", {})
 
     if "--list" in args:
         ign = "--ignored" in args
